@@ -45,6 +45,10 @@ CHECKS = {
    technique="TLC model checking of spec/Content.tla (serializer with look-ahead merges and current point x parser with operand buffer and last point, product machine; RoundTrip) + the operator table as spec data (spec/ContentTable.tla) + replay through serialize_ops/parse_ops",
    text="TLC checks Parse(Serialize(ops)) = ops for every sequence up to the bound over the merge-relevant alphabet and over all operation variants and refutes three deviations (TD pairing, sh dropped, ri without slash); all sequences are executed against the real serializer/parser at several numeric scales, and every row of the operator table is parsed from text printed by an independent operand printer and compared with the denoted operations, including the absence of operand leaks.",
    note="Small operand domains in the model; 7 of 73 table operators have no operation in the library's alphabet and are listed as not covered; v/y after re/h (current point set by other operators) is not part of the table test."),
+ "C15": dict(level="model_checking", design="5/C15", engine="A:derive",
+   technique="TLC model checking of spec/Derive.tla (abstract model with one field of every derive kind; Idempotent, Rereadable, Preserves over all presence patterns x tag/catch-all configurations) mapped onto every typed model by the source extractor and replayed through the real derived readers/writers",
+   text="TLC checks W(R(W(R(d)))) = W(R(d)) and entry preservation for all presence/default/one-or-many/unknown-key/type-tag patterns of the abstract derive model (4 configurations) and refutes the 'writer drops the catch-all' deviation; each pattern is instantiated for every typed model that has a reader and a writer (fields and types found in the sources at check time) and executed R-W-R-W with a recording Updater and a resolver that knows the created objects.",
+   note="Values per field type come from a fixed table; models without writer are listed; hand-written pairs are not covered by this run."),
 }
 
 def main():
